@@ -70,6 +70,9 @@ impl From<InMessageMeta> for OutMessageMeta {
 #[derive(Clone, Debug)]
 pub enum SwarmControlMessage {
     ConnectionClosed {
+        /// Index of socket worker that was responsible for the connection
+        out_message_consumer_id: ConsumerId,
+        connection_id: ConnectionId,
         ip_version: IpVersion,
         announced_info_hashes: Vec<(InfoHash, PeerId)>,
     },
